@@ -113,11 +113,11 @@ PROPS = {
                  'packed little-endian image of LinuxDirent64 (generated from the struct text); bytes_to_cstr contract; HandleMap cookie table as a ghost map; R23 ghost token'],
     ),
     'C12': dict(
-        vx_units=['server', 'vfs', 'ptinit', 'vfsmount'], kx=[], rx=['init'],
+        vx_units=['server', 'vfs', 'ptinit', 'vfsmount', 'ovlinit', 'ovl_ops'], kx=[], rx=['init'],
         design_ref='DESIGN.md section 5, C12',
         not_covered=[
             'Vfs::destroy and backends mounted AFTER init (Vfs::mount_with_id_mapping initialises them; mount path not covered)',
-            'OverlayFs::init; for PassthroughFs::init the converse (feature negotiated => switch IS stored) and the effect of the switches on later requests',
+            'for PassthroughFs::init / OverlayFs::init the converse (feature negotiated => switch IS stored); the effect of the switches on later requests except the writeback rewriting of the open flags in OverlayFs::open / create (D21); a second INIT after DESTROY on a passthrough / overlay instance (switches are only ever turned on)',
             'that the negotiated version IS stored (obligation to act); only that nothing but the client\'s (major, minor) may be stored',
             'fields of the INIT reply the property does not constrain (max_background, congestion_threshold, time_gran, minor)',
         ],
